@@ -139,7 +139,7 @@ func concWorkerMain(args []string) {
 	evals, distinct := 0, 0
 	for round := 0; round < rounds; round++ {
 		r := base.fork()
-		c := genStream(pick(r, []string{"wellformed", "prereqs", "bigseg", "segments", "rollouts"}), r.fork(), fmt.Sprintf("C13/%d/%d", seed, round))
+		c := genStream(pick(r, []string{"wellformed", "prereqs", "bigseg", "segments", "rollouts", "targets", "targets", "manykinds"}), r.fork(), fmt.Sprintf("C13/%d/%d", seed, round))
 		if round%2 == 1 {
 			c = concOperandScenario(r.fork(), fmt.Sprintf("C13/%d/%d", seed, round))
 		}
